@@ -147,6 +147,13 @@ func (ch *Chain) claimsProbe() (kept bool) {
 	if err := f.Cdc.UnmarshalJSON(bz, &gs2); err != nil {
 		panic(err)
 	}
+	// a genesis file is a JSON document: the order in which a bridge's claim records are listed carries no meaning
+	for i := range gs2.Bridges {
+		pw := gs2.Bridges[i].ProvenWithdrawals
+		for a, b := 0, len(pw)-1; a < b; a, b = a+1, b-1 {
+			pw[a], pw[b] = pw[b], pw[a]
+		}
+	}
 	if err := ophosttypes.ValidateGenesis(&gs2, f.AC); err != nil {
 		return false
 	}
